@@ -68,6 +68,11 @@ ASSUMPTIONS = [
     "judged at quiescence: each SETCONF against what Tor had when it processed it, endpoints against Tor's final "
     "configuration; a SETCONF that re-lists exactly what Tor has is accepted as a no-op; calls that fail although no "
     "existing entry could serve them are counted only",
+    "fault injection: FakeTor refuses the next SETCONF(s) with 513/552/553 and changes nothing; a further SETCONF is "
+    "tolerated only as a new try after a refused one and must again be 'what Tor has + exactly one new entry'; a call "
+    "that fails after a refusal is fine, an endpoint for a refused port is not",
+    "a request for the same TCP port number on another (non-wildcard) address than an existing entry names a different "
+    "listener (absent); with a wildcard (0.0.0.0/::) entry on that port it is counted as ambiguous",
     "an API Deferred still pending at quiescence is counted (unresolved), not judged",
 ]
 TRUSTED_BASE = ["vf.faketor.core.FakeTor + vf.faketor.sockstor.SocksStore (SocksPort family, 513 on malformed lines)",
@@ -88,7 +93,7 @@ FLOORS = {
               "endpoint_targets_compared": 500, "fallback_sequences_judged": 35,
               "fallback_attempts_checked": 60, "fallback_outcomes_compared": 30,
               "fallback_socks_failures_compared": 80, "reach:txtorcon.controller:Tor._default_socks_endpoint": 400,
-              "overlap_histories_judged": 200, "overlap_setconfs_judged": 250,
+              "overlap_histories_judged": 200, "overlap_setconfs_judged": 250, "refused_setconfs_seen": 150,
               "reach:txtorcon.endpoints:_create_socks_endpoint": 400,
               "reach:txtorcon.endpoints:TorClientEndpoint.connect": 90,
               "reach:txtorcon.torconfig:TorConfig.create_socks_endpoint": 150,
@@ -138,6 +143,9 @@ def attempt_of(target):
     return ("tcp", target[1], target[2])
 
 
+WILDCARD_HOSTS = ("0.0.0.0", "::")
+
+
 def classify_request(req, infos):
     if req is None:
         return "none", None
@@ -151,6 +159,14 @@ def classify_request(req, infos):
     if any(i["kind"] == "usable" for i in exact):
         return "present", ri
     if not exact and not sem:
+        rt = ri["target"]
+        if rt is not None and rt[0] in ("tcp", "tcp6"):
+            same_port = [i for i in infos if i["target"] is not None and i["target"][0] in ("tcp", "tcp6")
+                         and i["target"][2] == rt[2] and rt[2] != 0]
+            if any(i["target"][1] in WILDCARD_HOSTS for i in same_port) or rt[1] in WILDCARD_HOSTS:
+                return "ambiguous", ri        # a wildcard listener also serves the other address
+            if same_port:
+                return "absent-same-port", ri  # another address, same port number: a different listener
         if any(req in i["line"] for i in infos):
             return "absent-substring", ri
         return "absent", ri
@@ -223,6 +239,13 @@ def _call(fn, *a, **kw):
         return ("raised", e)
 
 
+REJECT_TEXT = {
+    513: "Unacceptable option value: Failed to bind one of the listener ports.",
+    552: "Unrecognized option: Failed to parse/validate config: Failed to bind one of the listener ports.",
+    553: "Unable to set option: Failed to bind one of the listener ports.",
+}
+
+
 def _run_prelude(pre, cfg, aud, link, reactor):
     """make the TorConfig object's view of SocksPort differ from what Tor has, without
     changing Tor: a save() Tor rejects (answered, or still in flight when the API is
@@ -264,6 +287,9 @@ def run_steps(case):
     proto, tor, link = core.connected_protocol(tor)
     reactor = sockstor.FakeReactor(free_ports=list(case.get("free", [45011, 45012, 45013])))
     aud = audit.Auditor(wire.LClock())
+    for code in case.get("reject", []):
+        # fault injection: Tor refuses the next SETCONF (nothing is changed then)
+        tor.script("SETCONF", (code, [("end", REJECT_TEXT[code])]))
     cfg = None
     boot_problem = None
     if api.startswith("cfg"):
@@ -438,7 +464,7 @@ def judge_step(case, step, nstep, rec, V):
         mode = "use" if usable else ("either" if (optional or unset) else "add")
     elif rclass == "present":
         mode = "use"
-    elif rclass in ("absent", "absent-substring"):
+    elif rclass in ("absent", "absent-substring", "absent-same-port"):
         mode = "add"
     else:
         mode = "either"
@@ -451,6 +477,9 @@ def judge_step(case, step, nstep, rec, V):
         if fam == "torobj":
             k = (case.get("prelude") or {}).get("kind", "none")
             return None if k == "none" else "config-view-diverged:" + k
+        if fam == "torconfig" and case.get("reject") and nstep > 0:
+            # an earlier create_socks_endpoint() of this history was refused by Tor
+            return "after-refused-setconf"
         if fam == "torconfig" and view is not None and view != E:
             # the TorConfig object's own idea of SocksPort is not what Tor reported
             if isinstance(view, list) and "DEFAULT" in view:
@@ -470,9 +499,15 @@ def judge_step(case, step, nstep, rec, V):
             V(clause, "%s/%s" % (fam, cause), detail)
 
     # ---- (1) every SETCONF written must be a faithful re-listing plus exactly one new entry
-    if len(writes) > 1:
-        report("more-than-one-setconf", history_cause() or "general", {"writes": writes, "E": E})
-    for (w, rest) in writes[:1]:
+    refused = [l for (l, c) in step["replies"] if l.split(" ")[0].upper() in ("SETCONF", "RESETCONF") and c >= 500]
+    if refused:
+        rec.count("refused_setconfs_seen", len(refused))
+    # one SETCONF adds the port; another one is tolerated only as a new try after Tor refused the previous one
+    if any((w + " " + r) not in refused for (w, r) in writes[:-1]):
+        report("more-than-one-setconf", history_cause() or "general", {"writes": writes, "E": E, "refused": refused})
+    for nwrite, (w, rest) in enumerate(writes):
+        if nwrite and (writes[nwrite - 1][0] + " " + writes[nwrite - 1][1]) not in refused:
+            break          # follows an accepted one: already reported above
         rec.count("setconf_decoded")
         try:
             items = kvline.parse(rest)
@@ -516,6 +551,8 @@ def judge_step(case, step, nstep, rec, V):
                 c = "unset-default-sentinel-sent"
             elif lost and "quoted" in how and "other" not in how:
                 c = "unix-quoted-path"
+            elif nwrite:
+                c = "after-refused-setconf"
             elif history_cause():
                 c = history_cause()
             elif missing_hard and len(got) == 1:
@@ -587,6 +624,8 @@ def judge_step(case, step, nstep, rec, V):
                 c = "unix-entry-with-option-words"
             elif fam in ("torconfig", "torobj") and history_cause():
                 c = history_cause()
+            elif rclass == "absent-same-port" and not writes:
+                c = "request-same-port-as-entry-on-other-address"
             elif rclass == "absent-substring" and not writes:
                 c = "request-substring-of-existing-entry"
             elif history_cause():
@@ -718,7 +757,7 @@ def run_overlap(case, rec, V):
         usable0 = [i for i in infos0 if i["kind"] == "usable"]
         if rclass == "present" or (rclass == "none" and usable0):
             modes.append("use")
-        elif rclass in ("absent", "absent-substring") or (rclass == "none" and not unset0 and
+        elif rclass in ("absent", "absent-substring", "absent-same-port") or (rclass == "none" and not unset0 and
                                                           not any(i["kind"] == "optional" for i in infos0)):
             modes.append("add")
         else:
@@ -941,6 +980,15 @@ def requests_for(cfg):
         if i["kind"] == "usable" and i["target"][0] == "unix" and not i["first"].startswith('unix:"'):
             reqs.append(i["first"].rsplit("/", 1)[0] or "unix:/x")
             break
+    # same port number, other address: a different listener (absent)
+    for i in infos:
+        t = i["target"]
+        if t is not None and t[0] in ("tcp", "tcp6") and t[2] and t[1] not in WILDCARD_HOSTS:
+            if t[1] != "127.0.0.1":
+                reqs += [str(t[2]), "10.1.2.3:%d" % t[2]]
+            else:
+                reqs += ["192.168.9.9:%d" % t[2]]
+            break
     # alias spelling / unusable exact entries (counted; judged on SETCONF shape only)
     for i in infos:
         if i["first"] in ALIASES:
@@ -1009,6 +1057,30 @@ def overlap_cells(cfg, tier, idx, base, free):
     return out
 
 
+def refusal_cells(cfg, tier, idx, base, free):
+    """fault injection: Tor refuses the SETCONF that adds the port (5xx, nothing changed)"""
+    lines = (cfg["socks"] or []) + (cfg["under"] or [])
+    infos = [entry_info(l) for l in lines]
+    needs_add = bool(infos) and not any(i["kind"] == "usable" for i in infos)   # a call without port must add one
+    codes = (513, 552, 553)
+    out = []
+    cells = [("direct", ["9999"]), ("cfg_create", ["9999"]), ("cfg_create", ["unix:/tmp/new.sock"]),
+             ("direct", ["9999", "9998"]), ("cfg_create", ["9999", "9998"]), ("direct", ["9999", "9999"]),
+             ("cfg_create", ["9999", None])]
+    if needs_add:
+        cells += [(api, [None]) for api in ("direct", "tor_default", "stream_via", "dns_resolve", "web_agent",
+                                            "from_connection", "torcfg_stream_via")]
+        cells += [("direct", [None, None]), ("tor_default", [None, None]), ("direct", [None, "9999"])]
+    for n, (api, steps) in enumerate(cells):
+        if tier == "quick" and not needs_add and (idx + n) % 3:
+            continue
+        code = codes[(idx + n) % 3]
+        out.append(dict(base, api=api, steps=steps, free=free, reject=[code]))
+        if needs_add or tier != "quick":
+            out.append(dict(base, api=api, steps=steps, free=free, reject=[code, codes[(idx + n + 1) % 3]]))
+    return out
+
+
 def cells_for(cfg, tier, idx, cidx=None):
     """all cases (dicts) for one configuration"""
     out = []
@@ -1033,6 +1105,7 @@ def cells_for(cfg, tier, idx, cidx=None):
             out.append(dict(base, api=api, steps=[None, None] if (idx + j) % 4 == 0 else [None], free=free,
                             cfg_via="get_config" if (idx + j) % 2 else "ctor",
                             prelude={"kind": kind, "edit": edit, "value": value}))
+    out.extend(refusal_cells(cfg, tier, idx if cidx is None else cidx, base, free))
     # (selection by the configuration's own index, not the seed-shifted one: same shapes for every seed)
     out.extend(overlap_cells(cfg, tier, idx if cidx is None else cidx, base, free))
     # histories of two calls
